@@ -13,7 +13,7 @@ def run(j):
     p, c = j
     r = selftest._one(c, "/repo", {"name": os.path.basename(p), "patch": p, "expect": "fire"}, "/var/tmp")
     return p, c, r
-with ThreadPoolExecutor(max_workers=8) as ex:
+with ThreadPoolExecutor(max_workers=int(os.environ.get("SEED_WORKERS", "8"))) as ex:
     res = list(ex.map(run, jobs))
 for p in patches:
     fired = {c: r.get("reported") for pp, c, r in res if pp == p and r["status"] == "ok"}
